@@ -20,6 +20,8 @@ import (
 	"github.com/metrico/qryn/reader/logql/logql_transpiler_v2"
 	"github.com/metrico/qryn/reader/logql/logql_transpiler_v2/internal_planner"
 	"github.com/metrico/qryn/reader/logql/logql_transpiler_v2/shared"
+	qmodel "github.com/metrico/qryn/reader/model"
+	"github.com/metrico/qryn/reader/service"
 	sql "github.com/metrico/qryn/reader/utils/sql_select"
 	prommodel "github.com/prometheus/common/model"
 	fakes "verif/harness/fakes12"
@@ -37,6 +39,11 @@ type c12StageCase struct {
 	Limit   int64      `json:"limit,omitempty"`
 	Sizes   []int      `json:"sizes,omitempty"`
 	Events  string     `json:"events,omitempty"`
+	// kind "consumer": scanner → exporter → a consumer (the handler's role, played by the harness) that leaves after K chunks
+	Fps    []int  `json:"fps,omitempty"`    // fingerprint of each row the database returns
+	BadAt  int    `json:"bad_at,omitempty"` // 1-based position of a row that fails to scan (0: none)
+	Policy string `json:"policy,omitempty"` // d = keeps draining, c = cancels the context and returns, a = just returns
+	K      int    `json:"k,omitempty"`
 }
 
 // fakeProc: a RequestProcessor that emits prepared batches and closes
@@ -213,6 +220,74 @@ func c12RunStage(st *c12StageCase, db *fakes.ReaderDB) string {
 			res += " cancel"
 		}
 		return res
+	case "consumer":
+		var rows [][]driver.Value
+		for i, fp := range st.Fps {
+			if i+1 == st.BadAt {
+				rows = append(rows, []driver.Value{"not-a-number", map[string]string{"a": "b"}, "m", int64(5)})
+				continue
+			}
+			rows = append(rows, []driver.Value{uint64(fp), map[string]string{"a": "b"}, "m", st.From + int64(i)})
+		}
+		db.SetScript(fakes.Script{Answers: []fakes.Answer{fakes.Rows(nil, rows...)}, Tables: []string{"samples_v3", "time_series"}})
+		svc := service.NewQueryRangeService(&qmodel.ServiceData{Session: db.Registry(false)})
+		cctx, cancel := context.WithCancel(context.Background())
+		defer cancel()
+		before := c12Census()
+		ch, err := svc.QueryRange(cctx, `{a="b"}`, st.From, st.To, 1000, 0, true)
+		if err != nil {
+			return "refused " + err.Error()
+		}
+		delivered, closed := 0, false
+	recv:
+		for delivered < st.K {
+			select {
+			case _, ok := <-ch:
+				if !ok {
+					closed = true
+					break recv
+				}
+				delivered++
+			case <-time.After(3 * time.Second):
+				return fmt.Sprintf("producer-stuck %d", delivered)
+			}
+		}
+		if !closed {
+			switch st.Policy {
+			case "d":
+				for range ch {
+				}
+			case "c":
+				cancel()
+			}
+		}
+		// do the goroutines of the request end?
+		pending := func() int {
+			n := 0
+			for id := range c12Census() {
+				if _, ok := before[id]; !ok {
+					n++
+				}
+			}
+			return n
+		}
+		verdict := "final"
+		for t0 := time.Now(); pending() > 0; time.Sleep(2 * time.Millisecond) {
+			if time.Since(t0) > 500*time.Millisecond {
+				verdict = "blocked"
+				break
+			}
+		}
+		if verdict == "blocked" {
+			// the comparison is made; now let them go (the outer census must find the child clean)
+			go func() {
+				for range ch {
+				}
+			}()
+			for t0 := time.Now(); pending() > 0 && time.Since(t0) < 3*time.Second; time.Sleep(2 * time.Millisecond) {
+			}
+		}
+		return fmt.Sprintf("%s %d", verdict, delivered)
 	case "scan":
 		var rows [][]driver.Value
 		for _, ev := range st.Events {
@@ -373,6 +448,32 @@ func c12StageOp(st *c12StageCase) string {
 			ns = append(ns, int64(n))
 		}
 		return fmt.Sprintf("c12limit %d %s", st.Limit, c12i64s(ns))
+	case "consumer":
+		// what the exporter sends per batch the scanner hands it (100 entries per batch; the last one carries the EOF or
+		// the error entry): one chunk per log line, one more when the fingerprint changes, the opening chunk with the
+		// first batch; an error entry → the error chunk and nothing after it
+		var batches []string
+		cnt, inBatch, lastFp, any := 1, 0, 0, false
+		end := ""
+		for i, fp := range st.Fps {
+			if i+1 == st.BadAt {
+				cnt++
+				end = "e"
+				break
+			}
+			if any && fp != lastFp {
+				cnt++
+			}
+			cnt++
+			lastFp, any = fp, true
+			inBatch++
+			if inBatch == 100 {
+				batches = append(batches, fmt.Sprint(cnt))
+				cnt, inBatch = 0, 0
+			}
+		}
+		batches = append(batches, fmt.Sprint(cnt)+end)
+		return fmt.Sprintf("c12hstop %s %d %s", st.Policy, st.K, strings.Join(batches, ","))
 	case "scan":
 		if st.Events == "" {
 			return "c12scan 100"
@@ -606,6 +707,7 @@ func c12Stages(r *h.Result, rng *h.Rng, tier string) error {
 	r.Stream("fix: real FixPeriodPlanner.Process (fake upstream) vs Read.fixProcess — refusal, exported (fingerprint, timestamp, value) series")
 	r.Stream("agg: real LRAPlanner(count_over_time) / AggOpPlanner(count) bucket counts vs Read.lraCount / aggOpAddValue")
 	r.Stream("limit: real LimitPlanner batch sizes + cancel vs Read.limitRun; scan: real ClickhouseGetterPlanner.Scan batch sizes vs Read.scanLoop")
+	r.Stream("consumer: real ClickhouseGetterPlanner.Scan → real QueryRangeService exporter (QueryRange on a stream selector) → a consumer that leaves after k chunks and then drains / cancels the context / just returns; verdict (all goroutines of the request returned | some blocked for ever) and chunks handed over vs the executable schedule of ReadSide/PipelineHExec.lean (consumer_schedule_sound: its verdicts are statements about the transition system)")
 	r.Stream("status: real routers (Loki query_range / query, Tempo trace, Prometheus query_range up to the engine) HTTP status class vs Read.lokiQueryRange / lokiQueryInstant / tempoTrace / promQueryRange fed with the stdlib parsers' outcomes and the real planner's facts")
 	var cases []*c12Case
 	var ops, streams []string
@@ -637,6 +739,28 @@ func c12Stages(r *h.Result, rng *h.Rng, tier string) error {
 			}
 			stage("scan", &c12StageCase{Kind: "scan", Events: ev})
 		}
+	}
+	// consumer: the real scanner and exporter against a consumer that leaves after k chunks
+	nc := 60
+	if tier != "quick" {
+		nc = 1200
+	}
+	for i := 0; i < nc; i++ {
+		rowsN := h.Pick(fr, []int{0, 1, 2, 3, 7, 99, 100, 101, 150, 200, 230})
+		st := &c12StageCase{Kind: "consumer", From: c12Base * 1e9, To: (c12Base + 3600) * 1e9, Policy: h.Pick(fr, []string{"d", "a", "a", "c"})}
+		fp, nfp := 1, 1+fr.Intn(4)
+		for j := 0; j < rowsN; j++ {
+			if rowsN > 0 && fr.Intn(rowsN/nfp+1) == 0 {
+				fp++
+			}
+			st.Fps = append(st.Fps, fp)
+		}
+		if rowsN > 0 && fr.Chance(25) {
+			st.BadAt = 1 + fr.Intn(rowsN)
+		}
+		total := rowsN + 8
+		st.K = h.Pick(fr, []int{0, 1, 2, 3, fr.Intn(total + 1), fr.Intn(total + 1), total + 50})
+		stage("consumer", st)
 	}
 	for i := 0; i < 2*n; i++ {
 		cs, op := c12GenQR(fr, 0, i%3 == 2)
